@@ -1,3 +1,5 @@
+// NOTE: records the PRE-REPAIR behaviour (findings F-BS1 / F-BS2 of unit blockstore, repaired in /repo by ee1ac52, 86c3405,
+// c250b7b); it has not been re-run on the repaired tree.
 // Reproducer: ClientBlockList::find_index (yrs/src/block_store.rs:49) panics for out-of-range clocks.
 // Only PUBLIC yrs API is used. Every case runs under catch_unwind; one binary shows all of them.
 use std::panic::{catch_unwind, AssertUnwindSafe};
